@@ -170,7 +170,9 @@ PROPS["C11"] = {
 
 PROPS["C04"] = {
     "kind": "crash",
-    "modules": ["C04"], "required_theorems": ["crash_safe", "recover_facts", "launch_files_ok", "segs_op", "crashPairs_pjok", "crash_safe_not_banned"],
+    "modules": ["C04"], "required_theorems": ["crash_safe", "recover_facts", "launch_files_ok", "segs_op", "crashPairs_pjok", "crash_safe_not_banned",
+                          "secHandlePriorSaves_apply", "secLaunchStartSaves_apply", "secLaunchSuccessSaves_apply", "secLaunchFailureSaves_apply",
+                          "secNextBootPatchSaves_apply", "secClearEventsSaves_apply", "secRollBackSaves_apply", "secInstallSaves_apply"],
     "monitors": ["C04"],
     "assumptions": ["process death = the process stops between two of its file-system calls, or half-way through a write; every completed call is durable and ordered (no fsync in the code: loss or reordering of completed writes by the kernel / file system below is outside the model)",
                     "a state file that is being rewritten is unreadable (empty or cut short) until the write completes: serde_json rejects every proper prefix of the documents involved",
